@@ -6,14 +6,14 @@ src = "/tmp/mut/%s/out/%s" % (prop, k)
 dst = "/verif/seeded/%s-%s" % (prop, slug)
 os.makedirs(dst, exist_ok=True)
 for f in os.listdir(src):
-    if f in ("patch.diff", "README.md") or f.startswith("demo.") or f.endswith((".c", ".cpp", ".sh", ".h")):
+    if f in ("patch.diff", "README.md", "BUILD") or f.startswith("demo.") or f.endswith((".c", ".cpp", ".sh", ".h")):
         shutil.copy(os.path.join(src, f), dst)
 ver = json.load(open("/tmp/mut/%s.%s.verify.json" % (prop, k)))
 ev = json.load(open("/tmp/mut/%s.%s.eval.json" % (prop, k)))
 meta = {
     "id": "%s-%s" % (prop, slug),
     "breaks_property": breaks.split(","),
-    "source": "fresh sub-agent given only the property text and a scratch worktree",
+    "source": os.environ.get("MUTANT_SOURCE", "fresh sub-agent given only the property text and a scratch worktree"),
     "needs_to_manifest": needs,
     "confirmed_by_me": {
         "scratch_worktree": "git worktree of /repo HEAD under /tmp/mv, removed afterwards (tools/mutant.py verify)",
